@@ -18,8 +18,8 @@ CONDS = [
          'enumerated by symbolic index', timeout={'quick': 100, 'thorough': 300}),
     Cond('mixed_ns_ok', 'a non-XHTML XML document mixing four namespaces and none: namespace tests combined with HTML-only '
          'pseudo-classes (which match nothing there) and lists whose members have no type selector, under 8 prefix maps incl. '
-         'default entries: select / match / filter == reference predicate', '20 selectors x 8 maps x 3 entry points',
-         timeout={'quick': 60, 'thorough': 300}),
+         'default entries: select / match / filter == reference predicate', '28 selectors x 8 maps x 3 entry points',
+         timeout={'quick': 100, 'thorough': 300}),
 ]
 
 
